@@ -13,15 +13,29 @@ def unhex (s : String) : Bytes :=
     | _ => []
   go s.toList
 
-partial def loop (h : IO.FS.Stream) : IO Unit := do
+partial def loop (h : IO.FS.Stream) (n bad : Nat) : IO Nat := do
   let line ← h.getLine
-  if line.isEmpty then return ()
-  let toks := (line.trimAscii.toString.splitOn " ").filter (· ≠ "")
-  let chunks := toks.map unhex
-  let f := Finder.run chunks
-  IO.println s!"{f.foundDate} {f.foundTime} {f.foundTimestamp}"
-  loop h
+  if line.isEmpty then return bad
+  let l := line.trimAscii.toString
+  match l.splitOn " | " with
+  | [cs, expect] =>
+    let toks := (cs.splitOn " ").filter (· ≠ "")
+    let f := Finder.run (toks.map unhex)
+    let got := s!"{f.foundDate} {f.foundTime} {f.foundTimestamp}"
+    if got ≠ expect then
+      IO.println s!"MISMATCH line {n}: {l}\n   model: {got}"
+      loop h (n + 1) (bad + 1)
+    else loop h (n + 1) bad
+  | _ =>
+    -- an empty text has no chunks: the line is ` | f f f`
+    match (l.splitOn "| ") with
+    | [_, expect] =>
+      let f := Finder.run []
+      let got := s!"{f.foundDate} {f.foundTime} {f.foundTimestamp}"
+      if got ≠ expect then IO.println s!"MISMATCH line {n}: {l}"; loop h (n + 1) (bad + 1) else loop h (n + 1) bad
+    | _ => IO.println s!"MISMATCH line {n}: bad-op {l}"; loop h (n + 1) (bad + 1)
 
-def main : IO Unit := do loop (← IO.getStdin)
-
+def main : IO Unit := do
+  let bad ← loop (← IO.getStdin) 1 0
+  IO.println s!"mismatches: {bad}"
 end DrvFinder
